@@ -93,6 +93,25 @@ func renderWith(format string, d *sbom.Document, indent int) ([]byte, error) {
 
 var enumKeyRe = regexp.MustCompile(`"(relationshipType|primaryPackagePurpose|algorithm|alg|referenceCategory|referenceType|type|scope)":\s*"([A-Za-z_0-9-]+)"`)
 
+var optionalMemberRe = regexp.MustCompile(`(?m)^\s*"(bom-ref|versionInfo|version|purl|cpe|copyrightText|copyright|description|supplier|downloadLocation|licenseConcluded|licenseDeclared)":\s*"[^"\n]*",?\s*\n`)
+
+// dropOptionalMembers removes some optional string members (whole lines of indented output;
+// a dangling comma is repaired). Input that is no longer JSON is left as it was.
+func dropOptionalMembers(r *rand.Rand, b []byte) []byte {
+	out := optionalMemberRe.ReplaceAllFunc(b, func(m []byte) []byte {
+		if r.Intn(2) == 0 {
+			return m
+		}
+		return nil
+	})
+	out = regexp.MustCompile(`,(\s*[}\]])`).ReplaceAll(out, []byte("$1"))
+	var v any
+	if json.Unmarshal(out, &v) != nil {
+		return b
+	}
+	return out
+}
+
 // varyEnumCase rewrites the values of enumeration-like members in other letter cases.
 func varyEnumCase(r *rand.Rand, b []byte) []byte {
 	return enumKeyRe.ReplaceAllFunc(b, func(m []byte) []byte {
@@ -147,6 +166,9 @@ func genC17(verifSeed int64, tier string, idx int) *core.Scenario {
 			}
 			if r.Intn(2) == 0 {
 				b = varyEnumCase(r, b) // producers spell enumerated values in other cases
+			}
+			if r.Intn(3) == 0 {
+				b = dropOptionalMembers(r, b) // ... and leave optional members out (components without bom-ref, packages without version)
 			}
 		}
 		sp.Streams = append(sp.Streams, b64(b))
